@@ -480,6 +480,48 @@ class Check(Property):
                                          f"n={n} give {want}")
             if u._active_ctx.contexts:
                 v.append("C11 entry-forms probe: contexts left active")
+            # a rule runs with the parameters of the context that OWNS it: an inner context with a colliding parameter name
+            # (given by keyword) does not change what the outer context's rule computes, and vice versa
+            pa = pint.Context("own_a", defaults={"n": 1})
+            pa.add_transformation("[A11]", "[B11]", lambda ureg, x, n, **_: x * n * ureg.Quantity(1, "b11 / a11"))
+            pb = pint.Context("own_b", defaults={"n": 1, "k": 1})
+            pb.add_transformation("[B11]", "[C11]", lambda ureg, x, n, k, **_: x * n * k * ureg.Quantity(1, "c11 / b11"))
+            u.add_context(pa), u.add_context(pb)
+            with u.context("own_a", n=2):
+                with u.context("own_b", n=5, k=3):
+                    got = (u.Quantity(10, "a11").to("b11").magnitude, u.Quantity(10, "b11").to("c11").magnitude, u.Quantity(10, "a11").to("c11").magnitude)
+            if got != (20, 150, 300):
+                v.append(f"C11 own_a(n=2) > own_b(n=5, k=3): 10 a11 -> b11, 10 b11 -> c11, 10 a11 -> c11 = {got}; each rule with its own context's "
+                         f"parameters gives (20, 150, 300)")
+            got = (u.Quantity(10, "a11").to("b11", "own_a", n=4).magnitude,)
+            u.enable_contexts("own_b", n=7)
+            got += (u.Quantity(10, "a11").to("b11", "own_a", n=4).magnitude, u.Quantity(10, "a11").to("b11", "own_a").magnitude)
+            u.disable_contexts()
+            if got != (40, 40, 70):
+                v.append(f"C11 to(dst, own_a, n=4) alone / inside own_b(n=7) / without keyword inside own_b(n=7) = {got}; expected (40, 40, 70)")
+            # contexts given as OBJECTS without a name: each conversion follows the rules of the object it was given, and a rule
+            # added to a context between two activations is used by the second one
+            c1 = pint.Context()
+            c1.add_transformation("[A11]", "[C11]", lambda ureg, x: x * ureg.Quantity(2, "c11 / a11"))
+            c2 = pint.Context()
+            c2.add_transformation("[A11]", "[C11]", lambda ureg, x: x * ureg.Quantity(5, "c11 / a11"))
+            c3 = pint.Context()
+            c3.add_transformation("[B11]", "[C11]", lambda ureg, x: x * ureg.Quantity(1, "c11 / b11"))
+            q10 = u.Quantity(10, "a11")
+            got = [q10.to("c11", c1).magnitude, q10.to("c11", c2).magnitude]
+            try:
+                q10.to("c11", c3)
+                got.append("converted")
+            except pint.DimensionalityError:
+                got.append("refused")
+            c3.add_transformation("[A11]", "[C11]", lambda ureg, x: x * ureg.Quantity(7, "c11 / a11"))
+            got.append(q10.to("c11", c3).magnitude)
+            with u.context(c1):
+                got.append(q10.to("c11").magnitude)
+            with u.context(c2):
+                got.append(q10.to("c11").magnitude)
+            if got != [20, 50, "refused", 70, 20, 50]:
+                v.append(f"C11 unnamed context objects c1 (x2), c2 (x5), c3 (no rule, then x7): {got}; expected [20, 50, 'refused', 70, 20, 50]")
         except Exception as exc:  # noqa: BLE001
             v.append(f"C11 entry-forms probe raised {type(exc).__name__}: {exc}")
         return v[:8]
